@@ -16,7 +16,7 @@ CONTROL_TAG = {TEXT: "input", SELECT: "select1", INTEGER: "input", NOTE: "input"
 BIND_TYPE = {TEXT: "string", CALC: "string", SELECT: "string", INTEGER: "int", NOTE: "string"}
 
 
-def rows_for(kinds, label: str):
+def rows_for(kinds, label: str, disabled: str = "yes"):
     rows = []
     for i, k in enumerate(kinds):
         n = f"n{i}"
@@ -37,7 +37,7 @@ def rows_for(kinds, label: str):
         elif k == SELECT:
             rows.append({"type": "select_one l1", "name": n, "label": label})
         elif k == DISABLED:
-            rows.append({"type": "text", "name": n, "label": label, "disabled": "yes"})
+            rows.append({"type": "text", "name": n, "label": label, "disabled": disabled})
         elif k == COMMENT:
             rows.append({"hint": "just a comment"})
         elif k == INTEGER:
@@ -200,8 +200,8 @@ def resolve(primary_root, path: str):
 
 
 # ---- extended vocabulary for closure / totality harnesses ---------------------------
-SELECT_OTHER, BREPEAT_COUNT, DYN_DEFAULT, TRIGGERED, BGROUP_TABLE, SELECT_MULTI, BREPEAT_REFCOUNT = range(12, 19)
-KIND_NAMES += ["select_one l1 or_other", "begin repeat (count 3)", "text default now()", "calculate with trigger ${n0}", "begin group table-list", "select_multiple l1", "begin repeat (count ${n0})"]
+SELECT_OTHER, BREPEAT_COUNT, DYN_DEFAULT, TRIGGERED, BGROUP_TABLE, SELECT_MULTI, BREPEAT_REFCOUNT, AUDIT = range(12, 20)
+KIND_NAMES += ["select_one l1 or_other", "begin repeat (count 3)", "text default now()", "calculate with trigger ${n0}", "begin group table-list", "select_multiple l1", "begin repeat (count ${n0})", "audit"]
 
 
 def rows_ext(kinds, label: str):
@@ -224,6 +224,8 @@ def rows_ext(kinds, label: str):
             rows.append({"type": "select_multiple l1", "name": n, "label": label})
         elif k == BREPEAT_REFCOUNT:
             rows.append({"type": "begin repeat", "name": n, "label": label, "repeat_count": "${n0}"})
+        elif k == AUDIT:  # lives in the meta block under the fixed name 'audit'
+            rows.append({"type": "audit", "name": "audit"})
     return rows
 
 
